@@ -131,6 +131,12 @@ func runC11V1(c *Ctx, g *valGen, seedU []byte, replacements []interface{}, repor
 	for _, kind := range v1Kinds {
 		for b := 0; b < bases; b++ {
 			cl, s := v1Random(g, kind)
+			if ac, ok := cl.(*v1.AccountClaims); ok {
+				// limits under which Validate walks the export list
+				ac.Exports.Add(&v1.Export{Subject: "e1.>", Type: v1.Stream}, &v1.Export{Subject: "e2", Type: v1.Service})
+				ac.Imports.Add(&v1.Import{Subject: "i1", Account: "A", Type: v1.Stream}, &v1.Import{Subject: "i2", Account: "A", Type: v1.Service})
+				ac.Limits.Exports, ac.Limits.WildcardExports, ac.Limits.Imports = 10, false, 10
+			}
 			tok, err := cl.Encode(s.kp)
 			if err != nil {
 				continue
